@@ -117,7 +117,7 @@ def match_known(ob, findings):
         if mm:
             model = ob.get("model") or {}
             try:
-                if not eval(mm, {"__builtins__": {"len": len, "isinstance": isinstance, "dict": dict, "list": list, "str": str, "int": int}}, {"m": model, "witness": ob.get("witness", "")}):
+                if not eval(mm, {"__builtins__": {"len": len, "isinstance": isinstance, "dict": dict, "list": list, "str": str, "int": int}}, {"m": model, "witness": ob.get("witness", ""), "path": ob.get("path", "")}):
                     continue
             except Exception:
                 continue
@@ -206,7 +206,11 @@ def decide(pid, tier, seed, mod, targets, results, opts, t_start):
         else:
             undecided.append(o)
     code = 0
+    seen_kf = set()
     for o, kf in known_hit:
+        if kf.get("id", o["id"]) in seen_kf:
+            continue
+        seen_kf.add(kf.get("id", o["id"]))
         lines.append(f"KNOWN-FINDING: property={pid} {kf.get('what', o['id'])} [obligation {o['id']}]")
     if n_total == 0 and not errors:
         errors.append(("vacuity", "zero obligations generated"))
